@@ -19,8 +19,9 @@ ASSUMPTIONS = ["a read's 'original' alignment is its exons column (CIGAR blocks 
                "tolerance for moving onto an annotated site that is not of a reported isoform: delta"]
 
 STRATEGIES = ["none", "default_pacbio", "default_ont", "conservative_ont", "all", "assembly"]
-END_MOVERS = {"default_ont", "all"}
-NOISE = ["shift", "skipmicro", "faketerm", "microir", "mmjunction"]
+END_MOVERS = {"default_ont", "all"}          # strategies with fake_terminal_exons and/or terminal_exons
+FAKE_TERMINAL_ONLY = {"default_ont"}           # fake_terminal_exons without terminal_exons (isoquant.py table, docs)
+NOISE = ["shift", "skipmicro", "faketerm", "microir", "mmjunction", "termmis", "termmis"]
 
 
 @st.composite
@@ -120,6 +121,12 @@ def evaluate(case, ctx):
                 ctx.violation("C14:ends-moved-without-terminal-correction",
                               {"read": b["name"], "strategy": strat, "orig": (orig[0][0], orig[-1][1]),
                                "bed": (blocks[0][0], blocks[-1][1])}, case)
+            elif strat in FAKE_TERMINAL_ONLY and (blocks[0][0] not in [x[0] for x in orig] or
+                                                  blocks[-1][1] not in [x[1] for x in orig]):
+                # this strategy enables the removal of fake terminal exons only: an end may move to the boundary of
+                # one of the read's own blocks, never to a position taken from the isoform
+                ctx.violation("C14:end-moved-to-foreign-position-without-terminal-exon-correction",
+                              {"read": b["name"], "strategy": strat, "orig": orig, "bed": blocks}, case)
             ol, orr = _sites(orig)
             cl, cr = _sites(blocks)
             isos = [t["isoform"] for t in trs if t["isoform"] in iso_introns]
